@@ -26,6 +26,9 @@ def corruptions(tlv: bytes):
         ('len+1 (value one byte longer)', mk(flags, val + b'\x00')),
         ('flags optional bit flipped', mk(flags ^ 0x80, val)),
         ('flags transitive bit flipped', mk(flags ^ 0x40, val)),
+        # RFC 4271 4.3: the four low bits are unused and MUST be ignored when received: still the same well-formed UPDATE
+        ('unused low flag bit set', mk(flags | 0x01, val)),
+        ('all unused low flag bits set', mk(flags | 0x0F, val)),
         ('duplicated', tlv + tlv),
         ('declared length overruns (+5)', mk(flags, val, ln + 5)),
     ]
@@ -109,7 +112,7 @@ def single_attribute_corruption(tier, seed):
                         fails.append(f)
                     if len(samples) < 4 and k == 0:
                         samples.append({'kind': kind, 'corruption': f'{name}: {what}', 'body': b2.hex()[:120]})
-    return {'evaluations': evals, 'distinct_nontrivial': len(distinct), 'bound': f'{n} well-formed UPDATEs x 3 session kinds x every attribute x 9 corruptions (length +/-, declared length short/overrun, flags, duplication, bad value, zero length), IPv4 and MP NLRI', 'rule': 'one case = one corrupted UPDATE body; distinct by bytes', 'samples': samples, 'failures': fails}
+    return {'evaluations': evals, 'distinct_nontrivial': len(distinct), 'bound': f'{n} well-formed UPDATEs x 3 session kinds x every attribute x 11 corruptions (length +/-, declared length short/overrun, flags, unused flag bits, duplication, bad value, zero length), IPv4 and MP NLRI', 'rule': 'one case = one corrupted UPDATE body; distinct by bytes', 'samples': samples, 'failures': fails}
 
 
 @replayer('C08', 'single-attribute-corruption')
